@@ -1,7 +1,7 @@
 """C13 — rotation of a circular record is a lossless group action"""
 import gen
 import impl
-from wire import CRec, feats_to_json, feats_from_json, positions, site_positions
+from wire import CRec, feats_to_json, feats_from_json, positions, site_positions, reading
 
 TABLES = []
 LAKE_TARGETS = ["Moclo.Props.C13"]
@@ -65,6 +65,12 @@ def check_case(ctx, case):
     if (out.id, out.name, out.description, out.dbxrefs, out.annotations.get("note")) != \
             (rec.id, rec.name, rec.description, rec.dbxrefs, "kept"):
         ctx.fail("identifiers / annotations not carried over by rotation", case)
+    # the order in which a stranded feature reads its nucleotides (the order of the parts of a join) moves along too
+    rd_in = sorted((f.ftype, f.qual, reading(tuple((s_ + k, e_ + k, st_) for (s_, e_, st_) in f.parts), n))
+                   for f in cin.feats if reading(f.parts, n) is not None)
+    rd_out = sorted((f.ftype, f.qual, reading(f.parts, n)) for f in cout.feats if reading(f.parts, n) is not None)
+    if rd_in != rd_out:
+        ctx.fail("after >> {} some stranded feature no longer reads the same nucleotides in the same order".format(k), case)
     d_in, d_out = denot(cin.feats, n), denot(cout.feats, n)
     if d_out != shifted(d_in, k, n):
         ctx.fail("after >> {} some feature is not attached to the same nucleotides: {} vs expected {}".format(
